@@ -233,8 +233,8 @@ type raftMonitor struct {
 	// replayed into a stand-alone partition of the same shape; a snapshot labelled with
 	// index L - taken locally or received - must restore to what the shadow held after L
 	deletedOn map[string]bool // node/group: the node deleted the group's log (its dataset was deleted)
-	shadow  map[uuid.UUID]*shadowPart
-	shapeOf func(group uuid.UUID) (dim, space int, ok bool)
+	shadow    map[uuid.UUID]*shadowPart
+	shapeOf   func(group uuid.UUID) (dim, space int, ok bool)
 }
 
 type shadowPart struct {
